@@ -1,7 +1,7 @@
 #!/usr/bin/env python3
 """Regenerates /verif/MANIFEST.json from the table below and validates it against the schema."""
 import json, subprocess, sys
-HOOK_COMMITS = ["82d54e0", "06e15f0"]
+HOOK_COMMITS = ["82d54e0", "06e15f0", "cd0ed04", "7dd122d"]
 
 # id: (engine, level, technique, level_text, level_note, design_ref)
 P = {
@@ -65,8 +65,48 @@ P = {
          "A producer creates keys and records; a cold factory under test with 1-3 sessions for 1-20 partitions runs seeded mixes of encrypts/decrypts with clock advances strictly before, just after and long after loadedAt+interval for per-session, shared, session-cached and uncached configurations. Repeats of an op that already succeeded must make 0 external calls inside the interval, exactly 1 read of the key's record on first use after it, never a Store; one KMS unwrap per SK per factory per interval; without caching every call loads and retains no secret.",
          "Keys never expire and nothing is revoked in these scenarios so that every call is attributable to caching.",
          "3/C20"),
+ "C06": ("inputs", "exploration",
+         "adversarial id-pair generation from the key-id naming scheme executed through the real decrypt path; err != nil oracle; known-finding filter by signature",
+         "Pairs of distinct partition ids derived from the naming scheme (P vs P_service_product[_region], prefixes, suffixes, case/unicode variants, ids embedding _IK_/_SK_, 255-byte ids, random) for four service/product shapes are executed in both directions, cold and warm, with per-session, shared-IK and session caches, over a plain metastore, a suffix-advertising wrapper and the real DynamoDB v1/v2 metastores with region suffix on the fake: a session for B must return an error for A's record; empty ids must be refused.",
+         "Known finding F3 (suffixed partition accepts ids that merely start with its unsuffixed IK id) is excused by a narrow signature; every other foreign decrypt fails the check. Region suffixes are assumed underscore-free.",
+         "3/C06"),
+ "C07": ("inputs", "exploration",
+         "systematic mutation (exhaustive single-bit flips, truncations, splices, hostile parent meta, corrupted key rows) with a payload-or-error oracle; recover() per case; race detector / checkptr",
+         "Every single-bit flip and truncation of Data and of the encrypted data key of a genuine corpus, all ordered pairs of records exchanging Data/key/parent meta/created, parent meta pointing at every existing key id with odd Created values (also on a region-suffixing metastore), structurally empty records, random JSON, every bit flip of IK/SK row ciphertexts and malformed rows seen by cold factories, and Session.Load with hostile loaders: each case must yield exactly the payload originally encrypted under that Data, or an error; a panic or process death is a violation.",
+         "AES-GCM tag forgery (2^-128 per mutant) is treated as impossible. Runs under -race, which implies checkptr.",
+         "3/C07"),
+ "C08": ("conc", "exploration",
+         "controlled scheduler over verif hook points (all interleavings, DFS with replay, synctest.Wait quiescence) plus seeded stress with yields at the same hooks under the Go race detector; use-after-destroy ledger",
+         "2-3 goroutines with short programs park at the lock-free hook points around the key-cache lookup and while holding a tracked key; the controller releases one per step and enumerates all schedules for shared IK caches of capacity 1-2 under lru/lfu/slru/tinylfu, an SK cache of capacity 1 with two SK generations, rotation while an old record is decrypted, another session closing, refresh on every access. Stress: 16-32 real goroutines over 8-150 partitions on capacity-1/2 and capacity-100 (asynchronous eviction) caches and cached sessions, yields injected at the hooks, race reports parsed. Oracle: every op not racing with its own session's close succeeds with the right bytes; the ledger sees no access to a destroyed secret.",
+         "Gates are only placed where the parked goroutine holds no lock another goroutine of the scenario needs. A clean race-detector run is not race freedom.",
+         "3/C08"),
+ "C11": ("secmem", "exploration",
+         "kernel-state oracle (/proc/self/smaps) at hooked points of real secrets, bounded-exhaustive operation sequences, concurrent reader/closer rounds in synctest bubbles under the race detector, faults turned into attributed panics",
+         "For memguard and protectedmemory secrets on real mlock'd pages: every sequence of L operations over {WithBytes, WithBytesFunc, nested reader, io.Reader, Close, IsClosed} for 9 sizes from 1 byte to 3 pages + 1 is compared with a model (bytes, errors, IsClosed) and the page's permissions / lock flag are sampled from smaps inside readers (r--, locked), between operations (---, locked, not dumpable) and after Close (unmapped or unlocked); 1-8 readers x 1-3 closers race in bubbles: readers see the original bytes or the closed error, no callback runs when a Close returns, a Close that never returns is a detected deadlock, nothing faults.",
+         "smaps is sampled on a subset of sequences (cost). strace-based lifecycle checking is not part of the registered check.",
+         "3/C11"),
+ "C12": ("secmem", "fault_enumeration",
+         "memcall monitor over the real awnumar/memcall (region table, content inspection at unlock) with every call index failing, through verif-tagged constructors; GC/finalizer drain; synctest deadlock detection",
+         "Both implementations are built on a monitored memcall: every call index of {New/CreateRandom, plain/nested/func/io.Reader reads, Close, second Close} fails without effect (pairs in thorough) plus a failing random source. Oracle: error returned, no region left mapped without a faulted release attempt, no non-zero content at unlock, failed access leaves the secret usable, failed Close retriable, InUseCounter balanced, and after a failed creation a healthy secret created next survives GC cycles (finalizer of the failed one).",
+         "memguard allocates/locks inside the third-party library (panics by design): only Protect and cleanup positions are injectable there. Known finding F9m (memguard munlocks an unwiped buffer when the first Protect fails) is listed.",
+         "3/C12"),
+ "C16": ("conc", "exploration",
+         "bounded-exhaustive session-cache programs in virtual time with a holder/teardown monitor over the env.close hook and debug-log correlation; stress under the race detector",
+         "Every program of L steps over {get session for partition 0/1/2, use oldest/newest handle, close oldest/newest handle, advance past SessionCacheDuration, close factory} for cache sizes 1-2 and the eviction policies; synctest.Wait quiesces the asynchronous Remove goroutines after every step; every held handle must keep working, consecutive gets share one *Session, teardown (env.close) fires exactly once per session incarnation and never while the harness counts a holder. Stress: 16 goroutines x 6 partitions, size-2 cache, 1-2 ms expiry, same oracle after quiescence.",
+         "Session incarnations are identified through the SDK's [newSession] debug line (addresses are reused).",
+         "3/C16"),
+ "C18": ("format", "exploration",
+         "differential check against an independent reference codec written from the documentation, both directions, through every persistence format and the gRPC mapping; known-answer vectors",
+         "A reference implementation using only encoding/json on generic maps, base64 and crypto/aes+cipher parses strictly and decrypts what the SDK writes, and the SDK decrypts what the reference writes, through JSON DRRs, memory, SQL key_record rows (3 dialects), DynamoDB v1/v2 items (with/without region suffix), mixed hierarchies (reference SK, SDK IK), StaticKMS envelopes and protobuf messages; field names/presence, base64, ciphertext|tag|nonce and key-id shapes are asserted; McGrew-Viega AES-256-GCM vectors must open through the SDK's AEAD.",
+         "The reference stands in for the Java/C# peers; Go's AES-GCM is anchored by the known answers.",
+         "3/C18"),
+ "C19": ("grpcsrv", "exploration",
+         "reference protocol automaton over bounded-exhaustive request sequences on an in-process stream plus concurrent streams over real gRPC (bufconn) under the race detector",
+         "Every request sequence up to length L over {get-session valid/empty, encrypt, decrypt genuine/foreign/corrupt/empty(4 shapes), empty request} + end-of-stream runs through AppEncryption.Session; an automaton {uninitialised, initialised, rejected} gives the expected response class, responses are counted per request, panics recovered. 8 concurrent streams x seeded 40-request sequences per round over bufconn check the same automaton per stream (a handler panic there kills the process and is reported as a crash).",
+         "main() and flag parsing are not exercised.",
+         "3/C19"),
 }
-CLAIMED = ["C01", "C02", "C03", "C04", "C05", "C09", "C10", "C13", "C14", "C15", "C17", "C20"]
+CLAIMED = ["C01", "C02", "C03", "C04", "C05", "C06", "C07", "C08", "C09", "C10", "C11", "C12", "C13", "C14", "C15", "C16", "C17", "C18", "C19", "C20"]
 PENDING_REASON = "check not built yet in this round (work in progress; see DESIGN.md section 3 for the planned monitor)"
 
 checks = []
